@@ -4,7 +4,8 @@ set -e
 cd "$(dirname "$0")"
 mkdir -p .work evidence replays
 python3 harness/regen_all.py
+python3 tools/gen_coqproject.py
 cd coq
 coq_makefile -f _CoqProject -o Makefile >/dev/null
-timeout 3000 make -j16 >/verif/.work/setup_make.log 2>&1 || { tail -40 /verif/.work/setup_make.log; exit 1; }
+timeout 3000 make -j16 >../.work/setup_make.log 2>&1 || { tail -40 ../.work/setup_make.log; exit 1; }
 echo "setup ok"
